@@ -37,7 +37,7 @@ func C17(c *core.Ctx) {
 	// ---- R17.1
 	if run := c.Fn("R17.1", "fw/mgmt", "Thread", "Run"); run != nil {
 		var disp []ssa.Instruction
-		for _, ci := range core.FindCalls(run, core.CalleeID{Pkg: "fw/mgmt", Recv: "Module", Name: "handleIncomingInterest"}) {
+		for _, ci := range core.FindCallsDeep(run, core.CalleeID{Pkg: "fw/mgmt", Recv: "Module", Name: "handleIncomingInterest"}) {
 			disp = append(disp, ci)
 		}
 		c.Floor("R17.1", "module dispatch sites", len(disp), 1)
@@ -84,8 +84,8 @@ func C17(c *core.Ctx) {
 				return okF
 			})
 		}
-		g1 := core.Gate(run, disp, neg(tooShort))
-		g2 := core.Gate(run, disp, pos(isPrefixOf("localPrefix")), pos(isPrefixOf("nonLocalPrefix")))
+		g1 := core.GateDeep(run, disp, neg(tooShort))
+		g2 := core.GateDeep(run, disp, pos(isPrefixOf("localPrefix")), pos(isPrefixOf("nonLocalPrefix")))
 		c.Decide(g1.OK && g1.PassEdges > 0, "R17.1", "dispatch-needs-module-and-verb", p.Pos(run.Pos()), "dispatch unreachable for names shorter than prefix+2", "a management Interest with fewer than prefix+2 name components reaches module dispatch (indexing the module/verb component panics)")
 		c.Decide(g2.OK && g2.PerLit[0] > 0, "R17.1", "dispatch-needs-management-prefix", p.Pos(run.Pos()), "dispatch reachable only under localPrefix or nonLocalPrefix", "a management Interest outside /localhost/nfd and /localhop/nfd reaches module dispatch")
 		// decode error gate
@@ -98,7 +98,7 @@ func C17(c *core.Ctx) {
 			}
 			return 0, 0
 		}}
-		g3 := core.Gate(run, disp, pos(okDec))
+		g3 := core.GateDeep(run, disp, pos(okDec))
 		c.Decide(g3.OK && g3.PassEdges > 0, "R17.1", "dispatch-needs-decoded-packet", p.Pos(run.Pos()), "dispatch only after a successful decode", "a packet that failed to decode reaches module dispatch")
 	}
 	modI := p.Named("fw/mgmt", "Module")
@@ -142,7 +142,7 @@ func C17(c *core.Ctx) {
 			_, okF := core.FieldOf(r, "localPrefix")
 			return okF
 		})
-		g := core.Gate(fn, eff, pos(local))
+		g := core.GateDeep(fn, eff, pos(local))
 		c.Decide(len(eff) > 0 && g.OK && g.PassEdges > 0, "R17.1", "module-local-only:"+tn, p.Pos(fn.Pos()), fmt.Sprintf("%d verb dispatches reachable only under the local management prefix", len(eff)), tn+".handleIncomingInterest acts on commands that did not arrive under the local management prefix (only local faces can use /localhost): a remote host can change forwarder state")
 	}
 
@@ -156,7 +156,7 @@ func C17(c *core.Ctx) {
 			continue
 		}
 		var muts []ssa.Instruction
-		for _, ci := range core.FindCalls(fn, mgmtMutators...) {
+		for _, ci := range core.FindCallsDeep(fn, mgmtMutators...) {
 			muts = append(muts, ci)
 		}
 		if len(muts) == 0 {
@@ -193,17 +193,17 @@ func C17(c *core.Ctx) {
 			return 0, 0
 		}}
 		var params ssa.Value
-		for _, ci := range core.FindCalls(fn, core.CalleeID{Pkg: "fw/mgmt", Name: "decodeControlParameters"}) {
+		for _, ci := range core.FindCallsDeep(fn, core.CalleeID{Pkg: "fw/mgmt", Name: "decodeControlParameters"}) {
 			params = ci.Value()
 		}
-		g := core.Gate(fn, muts, neg(tooShort))
+		g := core.GateDeep(fn, muts, neg(tooShort))
 		c.Decide(g.OK && g.PassEdges > 0, "R17.2", "mutation-needs-parameters-component:"+fname, p.Pos(fn.Pos()), "mutators unreachable when the name cannot carry ControlParameters", fname+" can change state for a command name without a ControlParameters component (and indexes past the name)")
 		if params == nil {
 			c.Viol("R17.2", "mutation-needs-decoded-parameters:"+fname, p.Pos(fn.Pos()), fname+" mutates state without decoding ControlParameters")
 			continue
 		}
 		pn := atomNonNil("params!=nil", params)
-		g = core.Gate(fn, muts, pos(pn))
+		g = core.GateDeep(fn, muts, pos(pn))
 		c.Decide(g.OK && g.PassEdges > 0, "R17.2", "mutation-needs-decoded-parameters:"+fname, p.Pos(fn.Pos()), "mutators reachable only when ControlParameters decoded", fname+" can change state although the ControlParameters failed to decode")
 		// every dereference of an optional parameter is behind its presence test
 		nDeref, badDeref := 0, ""
@@ -234,18 +234,18 @@ func C17(c *core.Ctx) {
 			_, f := core.FieldAddrName(fa)
 			nDeref++
 			a := atomFieldNonNil("params."+f+"!=nil", params, f)
-			if g0 := core.Gate(fn, []ssa.Instruction{in}, pos(a)); f == "Mask" && !(g0.OK && g0.PassEdges > 0) {
+			if g0 := core.GateDeep(fn, []ssa.Instruction{in}, pos(a)); f == "Mask" && !(g0.OK && g0.PassEdges > 0) {
 				// frozen exception: Mask is read only inside 'if params.Flags != nil', after the
 				// both-or-neither validation of Flags/Mask rejected the command through a boolean
 				// flag (areParamsValid) that a path-insensitive gate cannot follow. Required
 				// instead: the dereference is behind Flags != nil and a Mask presence test exists.
-				gF := core.Gate(fn, []ssa.Instruction{in}, pos(atomFieldNonNil("params.Flags!=nil", params, "Flags")))
+				gF := core.GateDeep(fn, []ssa.Instruction{in}, pos(atomFieldNonNil("params.Flags!=nil", params, "Flags")))
 				if !(gF.OK && gF.PassEdges > 0) || len(core.EdgeFacts(fn, a)) == 0 {
 					badDeref = "params.Mask at " + c.Pos(in)
 				}
 				return
 			}
-			if g := core.Gate(fn, []ssa.Instruction{in}, pos(a)); !(g.OK && g.PassEdges > 0) {
+			if g := core.GateDeep(fn, []ssa.Instruction{in}, pos(a)); !(g.OK && g.PassEdges > 0) {
 				badDeref = "params." + f + " at " + c.Pos(in)
 			}
 		})
@@ -255,7 +255,7 @@ func C17(c *core.Ctx) {
 			_, args := core.CallArgs(m.(ssa.CallInstruction).Common())
 			for _, a := range args {
 				if isFieldLoad(a, params, "Name") {
-					gg := core.Gate(fn, []ssa.Instruction{m}, pos(atomFieldNonNil("params.Name!=nil", params, "Name")))
+					gg := core.GateDeep(fn, []ssa.Instruction{m}, pos(atomFieldNonNil("params.Name!=nil", params, "Name")))
 					c.Decide(gg.OK && gg.PassEdges > 0, "R17.2", "name-required:"+fname+":"+calleeName(m), c.Pos(m), "mutator reachable only with params.Name present", fname+" passes a missing Name (nil) to "+calleeName(m)+": a nil name addresses the root entry")
 				}
 			}
@@ -267,7 +267,7 @@ func C17(c *core.Ctx) {
 			known  bool
 		}
 		var resps []resp
-		for _, ci := range core.FindCalls(fn, core.CalleeID{Pkg: "fw/mgmt", Recv: "Thread", Name: "sendResponse"}) {
+		for _, ci := range core.FindCallsDeep(fn, core.CalleeID{Pkg: "fw/mgmt", Recv: "Thread", Name: "sendResponse"}) {
 			_, a := core.CallArgs(ci.Common())
 			r := resp{call: ci}
 			// response value: makeControlResponse(K, …) possibly through a phi/local
@@ -332,7 +332,7 @@ func C17(c *core.Ctx) {
 		for _, m := range stateMuts {
 			// a later mutator of the same command may precede the response; an error
 			// response after a mutation is a violation
-			if fr := core.MustFollow(fn, core.After(m), isOKResp, nil); !fr.OK {
+			if fr := core.MustFollowDeep(fn, core.After(m), isOKResp, nil); !fr.OK {
 				okFollow = false
 			}
 		}
@@ -369,7 +369,7 @@ func C17(c *core.Ctx) {
 		for _, f := range core.EdgeFacts(fn, tooShort, pn) {
 			if (f.A == tooShort && f.Holds) || (f.A == pn && !f.Holds) {
 				nRef++
-				if !core.MustFollow(fn, core.Point{Block: f.E.To, Idx: 0}, isRefusal, nil).OK {
+				if !core.MustFollowDeep(fn, core.Point{Block: f.E.To, Idx: 0}, isRefusal, nil).OK {
 					bad = "a malformed command (" + f.A.Name + " fails) is not answered with a 4xx status"
 				}
 			}
@@ -385,7 +385,7 @@ func C17(c *core.Ctx) {
 	// defaults of rib/register
 	if reg := c.Fn("R17.2", "fw/mgmt", "RIBModule", "register"); reg != nil {
 		sl := &core.Slicer{P: p}
-		for _, ci := range core.FindCalls(reg, core.CalleeID{Pkg: "fw/table", Recv: "RibTable", Name: "AddEncRoute"}) {
+		for _, ci := range core.FindCallsDeep(reg, core.CalleeID{Pkg: "fw/table", Recv: "RibTable", Name: "AddEncRoute"}) {
 			_, a := core.CallArgs(ci.Common())
 			route := a[1]
 			chk := func(field string, okLeaf func(core.Leaf) bool, what string) {
@@ -415,7 +415,7 @@ func C17(c *core.Ctx) {
 				if pf, ok := map[string]string{"Origin": "Origin", "Cost": "Cost", "Flags": "Flags"}[field]; ok {
 					if phi, isPhi := core.Strip(v).(*ssa.Phi); isPhi {
 						var params ssa.Value
-						for _, dc := range core.FindCalls(reg, core.CalleeID{Pkg: "fw/mgmt", Name: "decodeControlParameters"}) {
+						for _, dc := range core.FindCallsDeep(reg, core.CalleeID{Pkg: "fw/mgmt", Name: "decodeControlParameters"}) {
 							params = dc.Value()
 						}
 						absent := map[core.Edge]bool{}
@@ -490,14 +490,14 @@ func C17(c *core.Ctx) {
 				}
 				return 0, 0
 			}}
-			g := core.Gate(fn, []ssa.Instruction{s.Instr}, pos(need))
+			g := core.GateDeep(fn, []ssa.Instruction{s.Instr}, pos(need))
 			c.Decide(g.OK && g.PassEdges > 0, "R17.3", fmt.Sprintf("strategy-name-index:%s#%d", core.FuncName(fn), nIdx), c.Pos(s.Instr), "Strategy.Name[i] only behind len(Strategy.Name) > i", core.FuncName(fn)+" indexes the decoded Strategy name at a position that was not shown to exist (IsPrefix only proves len ≥ len(prefix)): a strategy name equal to the strategy prefix crashes the management thread")
 		}
 	}
 	c.Floor("R17.3", "index operations on decoded Strategy names", nIdx, 2)
 	// (b) MTU lower bound, (c) capacity upper bound
 	for _, fn := range p.FuncsIn(pkg) {
-		for _, ci := range core.FindCalls(fn, core.CalleeID{Pkg: "fw/face", Recv: "*", Name: "SetMTU"}) {
+		for _, ci := range core.FindCallsDeep(fn, core.CalleeID{Pkg: "fw/face", Recv: "*", Name: "SetMTU"}) {
 			small := &core.Atom{Name: "*params.Mtu<min", Match: func(cond ssa.Value) (int, int) {
 				op, x, y, ok := core.Cmp(cond)
 				if !ok {
@@ -517,10 +517,10 @@ func C17(c *core.Ctx) {
 				return 0, 0
 			}}
 			present := atomValNonNil("params.Mtu!=nil", func(v ssa.Value) bool { _, ok := core.FieldOf(v, "Mtu"); return ok })
-			g := core.Gate(fn, []ssa.Instruction{ci}, neg(small), neg(present))
+			g := core.GateDeep(fn, []ssa.Instruction{ci}, neg(small), neg(present))
 			c.Decide(g.OK && g.PerLit[0] > 0, "R17.3", "mtu-lower-bound:"+core.FuncName(fn), c.Pos(ci), "SetMTU unreachable for an MTU below the minimum", core.FuncName(fn)+" accepts any MTU from the command (no lower bound): an MTU smaller than the link-protocol overhead makes the effective MTU ≤ 0 and the next packet sent on that face divides by zero / allocates a negative fragment count")
 		}
-		for _, ci := range core.FindCalls(fn, core.CalleeID{Pkg: "fw/table", Name: "SetCsCapacity"}) {
+		for _, ci := range core.FindCallsDeep(fn, core.CalleeID{Pkg: "fw/table", Name: "SetCsCapacity"}) {
 			big := &core.Atom{Name: "*params.Capacity>max", Match: func(cond ssa.Value) (int, int) {
 				op, x, y, ok := core.Cmp(cond)
 				if !ok {
@@ -540,7 +540,7 @@ func C17(c *core.Ctx) {
 				return 0, 0
 			}}
 			present := atomValNonNil("params.Capacity!=nil", func(v ssa.Value) bool { _, ok := core.FieldOf(v, "Capacity"); return ok })
-			g := core.Gate(fn, []ssa.Instruction{ci}, neg(big), neg(present))
+			g := core.GateDeep(fn, []ssa.Instruction{ci}, neg(big), neg(present))
 			c.Decide(g.OK && g.PerLit[0] > 0, "R17.3", "capacity-upper-bound:"+core.FuncName(fn), c.Pos(ci), "SetCsCapacity unreachable for a capacity that does not fit an int", core.FuncName(fn)+" converts the 64-bit Capacity parameter to int without an upper bound: 2^63 and above become a negative capacity, the eviction loop then empties the queue and dereferences a nil Front()")
 		}
 	}
@@ -578,7 +578,7 @@ func C17(c *core.Ctx) {
 			}
 			nVal++
 			v := ssa.Value(u)
-			g := core.Gate(fn, []ssa.Instruction{in}, pos(atomNonNil("msg.Val!=nil", v)))
+			g := core.GateDeep(fn, []ssa.Instruction{in}, pos(atomNonNil("msg.Val!=nil", v)))
 			k := "decoded-element-nil-check:" + core.FuncName(fn) + ":" + id.Name
 			if seenVal[k] && g.OK && g.PassEdges > 0 {
 				return
